@@ -34,6 +34,9 @@ def gen_bench(rs, noise_allowed=True, tier="quick"):
         if k < 0.03:
             ops.append({"op": "reset"})
             continue
+        if k < 0.045:
+            ops.append({"op": "reset_to", "frac": r.choice([0.0, 1.0, r.uniform(0, 1)])})
+            continue
         if mode == "const":
             p = base
         elif mode == "ramp":
@@ -77,6 +80,10 @@ def run_bench(sc, on_call):
         init_json = None
         for i, op in enumerate(sc["ops"]):
             pre = (float(batt._current_charge), float(batt.current_charging_power))
+            if op["op"] == "reset_to":
+                batt.reset(sc["battery"]["capacity"] * op["frac"])
+                on_call(i, op, pre, (float(batt._current_charge), float(batt.current_charging_power)), None, batt)
+                continue
             if op["op"] == "reset":
                 batt.reset()
                 on_call(i, op, pre, (float(batt._current_charge), float(batt.current_charging_power)), None, batt)
